@@ -129,7 +129,7 @@ def check_valid_block(st, rng, res, blk, D, hist, gen_hist_len, profile, big=Fal
             if perr or r != len(blk) or img != D:
                 fail(res, "prop_fail", "valid block: LZ4_decompress_%s returned %d (expected %d = source size), content %s %s" % (api, r, len(blk), "equal" if img == D else "DIFFERS", perr or ""),
                      blk=blk.hex() if len(blk) < 4000 else "len=%d" % len(blk), api=api, build=bname, hist=hshort(h), profile=profile)
-            if bname == "fast1" and ((len(h) < 60000 and not big) or rng.random() < 0.15):
+            if bname == "fast1" and rng.random() < (0.3 if (len(h) < 60000 and not big) else 0.08):
                 # correspondence of Model/DecFast.v (the C function does not depend on LZ4_FAST_DEC_LOOP: one build suffices)
                 mr, mok, mimg = declib2.model_fast(st["dec2"], api, blk, n, h, salt)
                 res["stats"]["model_calls_fast"] += 1
@@ -241,7 +241,7 @@ def check_stream(st, rng, res, geom, big, edge=False):
             res["keys"].add(hashlib.sha1(b"st|%s|%s|%d" % (geom.encode(), b["blk"][:2000], rec["cap"] - n)).hexdigest())
         # deprecated LZ4_decompress_fast_continue over the same stream (model: Model/DecFast.v, on one build)
         r2.setstate(state)
-        recs = declib2.run_stream(dec.lib, st["dec2"], bname == "fast1", geom, blocks, maxblock, r2, salt, use_fast_api=True, want_model=(bname == "fast1"))
+        recs = declib2.run_stream(dec.lib, st["dec2"], bname == "fast1", geom, blocks, maxblock, r2, salt, use_fast_api=True, want_model=(bname == "fast1" and (geom != "ring" or len(blocks) <= 12)))
         for i, (b, rec) in enumerate(zip(blocks, recs)):
             n = len(b["content"])
             res["evals"] += 1
